@@ -616,6 +616,13 @@ fn add_path_data<W: Write>(
             let mut needs_explicit_segment =
                 point.path_type != last_type || point.path_type == Some(PathType::PERFECT_CURVE);
 
+            // A typed last control point has no vertex after it so the
+            // implicit form (duplicated point) would not be read back as a
+            // segment start.
+            if i > 0 && i == control_points.len() - 1 {
+                needs_explicit_segment = true;
+            }
+
             if i > 1 {
                 let p1 = pos + control_points[i - 1].pos;
                 let p2 = pos + control_points[i - 2].pos;
@@ -641,7 +648,14 @@ fn add_path_data<W: Write>(
 
                 // Beatmaps such as /b/1027526 have no control points so the
                 // path type needs to be followed by `,` instead of `|`.
-                writer.write_all(slice::from_ref(&separator(i)))?;
+                // Otherwise the type is always followed by its own point.
+                let type_separator = if control_points.len() == 1 {
+                    b','
+                } else {
+                    b'|'
+                };
+
+                writer.write_all(slice::from_ref(&type_separator))?;
 
                 last_type = Some(path_type);
             } else {
